@@ -76,18 +76,16 @@ Target(L) == LET ad == Adj(L.G)  d == Det(L.G)
                  e(i, j) == Rat(L.gs * L.N[i] * L.N[j] * ad[i][j], d)
              IN <<<<e(1, 1), e(1, 2), e(1, 3)>>, <<e(2, 1), e(2, 2), e(2, 3)>>, <<e(3, 1), e(3, 2), e(3, 3)>>>>
 
-(* find_bk_vectors: k_latt = all (i, j, k) with |i| <= search_limit ...  The variant "truncbox" models the classic
-   off-by-one  range(-limit, limit)  and is used for the sensitivity self-test only. *)
-BoxV(L, variant) == LET hi(i) == IF variant = "truncbox" THEN L.SS * L.N[i] - 1 ELSE L.SS * L.N[i]
-                    IN {<<a, b, c>> : a \in (-L.SS * L.N[1])..hi(1), b \in (-L.SS * L.N[2])..hi(2), c \in (-L.SS * L.N[3])..hi(3)}
-Box(L) == BoxV(L, "ok")
+(* find_bk_vectors: k_latt = all (i, j, k) with |i| <= search_limit[0] ... *)
+Box(L) == {<<a, b, c>> : a \in (-L.SS * L.N[1])..(L.SS * L.N[1]), b \in (-L.SS * L.N[2])..(L.SS * L.N[2]),
+                          c \in (-L.SS * L.N[3])..(L.SS * L.N[3])}
 Full(P) == P \cup {VNeg(n) : n \in P}
 (* k_to_shells: the shell of squared length q inside the box (zero vector excluded) *)
 ShellAt(L, q) == LET gm == L.gm IN {n \in Box(L) : n # VZero /\ QG(gm, n) = q}
 (* the next shell in the order of increasing length after squared length q ({} when the box is exhausted) *)
-NextShellV(L, q, variant) ==
+NextShell(L, q) ==
    LET gm == L.gm
-       cand == {n \in BoxV(L, variant) : n # VZero /\ QG(gm, n) > q}
+       cand == {n \in Box(L) : n # VZero /\ QG(gm, n) > q}
    IN IF cand = {} THEN {}
       ELSE LET qn == Min({QG(gm, n) : n \in cand}) IN {n \in cand : QG(gm, n) = qn}
 
@@ -98,29 +96,32 @@ MLatC(S, i, j) == ISumSet(S, LAMBDA n : n[i] * n[j])
 MLat(S) == <<MLatC(S, 1, 1), MLatC(S, 2, 2), MLatC(S, 3, 3), MLatC(S, 1, 2), MLatC(S, 1, 3), MLatC(S, 2, 3)>>
 TargetVec(L) == LET t == Target(L) IN <<t[1][1], t[2][2], t[3][3], t[1][2], t[1][3], t[2][3]>>
 
-(* Gauss-Jordan elimination over the rationals of the 6 x (k+1) augmented matrix [ M_1 ... M_k | target ].
+(* Gauss-Jordan elimination over the rationals of the nr x (k+1) augmented matrix (nr = 6) [ M_1 ... M_k | target ].
    "dependent"  : the shell matrices are linearly dependent      (code: a zero singular value)
    "incomplete" : independent, but the target is not in their span (code: residual > bk_complete_tol)
    "complete"   : the unique weights *)
-RECURSIVE Elim(_, _, _)
-Elim(A, c, k) ==
+RECURSIVE Elim(_, _, _, _)
+Elim(A, c, k, nr) ==
    IF c > k
-   THEN [status |-> IF \A i \in (k + 1)..6 : A[i][k + 1] = RZero THEN "complete" ELSE "incomplete",
+   THEN [status |-> IF \A i \in (k + 1)..nr : A[i][k + 1] = RZero THEN "complete" ELSE "incomplete",
          w |-> [j \in 1..k |-> A[j][k + 1]]]
-   ELSE LET piv == {i \in c..6 : A[i][c] # RZero} IN
+   ELSE LET piv == {i \in c..nr : A[i][c] # RZero} IN
         IF piv = {} THEN [status |-> "dependent", w |-> <<>>]
         ELSE LET p == Min(piv)
-                 A1 == [i \in 1..6 |-> IF i = c THEN A[p] ELSE IF i = p THEN A[c] ELSE A[i]]
+                 A1 == [i \in 1..nr |-> IF i = c THEN A[p] ELSE IF i = p THEN A[c] ELSE A[i]]
                  prow == [j \in 1..(k + 1) |-> RDiv(A1[c][j], A1[c][c])]
-                 A2 == [i \in 1..6 |-> IF i = c THEN prow
+                 A2 == [i \in 1..nr |-> IF i = c THEN prow
                                        ELSE [j \in 1..(k + 1) |-> RSub(A1[i][j], RMul(A1[i][c], prow[j]))]]
-             IN Elim(A2, c + 1, k)
-ShellWeights(L, shells) ==
+             IN Elim(A2, c + 1, k, nr)
+(* variant "diagonly" (sensitivity self-test only): a completeness test that looks at the diagonal of sum w b b^T only *)
+ShellWeightsV(L, shells, variant) ==
    LET k == Len(shells)
+       nr == IF variant = "diagonly" THEN 3 ELSE 6
        ms == [s \in 1..k |-> MLat(shells[s])]
        tv == TargetVec(L)
-       A == [i \in 1..6 |-> [j \in 1..(k + 1) |-> IF j <= k THEN RInt(ms[j][i]) ELSE tv[i]]]
-   IN IF k > 6 THEN [status |-> "dependent", w |-> <<>>] ELSE Elim(A, 1, k)
+       A == [i \in 1..nr |-> [j \in 1..(k + 1) |-> IF j <= k THEN RInt(ms[j][i]) ELSE tv[i]]]
+   IN IF k > nr THEN [status |-> "dependent", w |-> <<>>] ELSE Elim(A, 1, k, nr)
+ShellWeights(L, shells) == ShellWeightsV(L, shells, "ok")
 
 (* "is this shell parallel to what we have": three readings
    "pair" : Wannier90 and system/__finite_differences.check_parallel - some vector of the new shell is parallel to some
@@ -158,7 +159,7 @@ IsParallelShell(rule, L, sel, new) ==
          iteration did, last |-> the shell it looked at, par |-> what the parallel rules say about that shell] *)
 StInit == [q |-> 0, sel |-> <<>>, w |-> <<>>, pc |-> "loop", branch |-> "init", last |-> {}, par |-> <<FALSE, FALSE>>]
 IterateV(L, rule, st, variant) ==
-   LET new == NextShellV(L, st.q, variant) IN
+   LET new == NextShell(L, st.q) IN
    IF new = {} THEN [st EXCEPT !.pc = "fail", !.branch = "exhausted", !.last = {}, !.par = <<FALSE, FALSE>>]
    ELSE LET qn == QF(L, CHOOSE n \in new : TRUE)
             par == <<IsParallelShell("span", L, st.sel, new), IsParallelShell("pair", L, st.sel, new)>>
@@ -167,14 +168,11 @@ IterateV(L, rule, st, variant) ==
         IN
         IF isp THEN [st1 EXCEPT !.branch = "parallel"]
         ELSE LET tmp == Append(st.sel, new)
-                 r == ShellWeights(L, tmp)
+                 r == ShellWeightsV(L, tmp, variant)
              IN CASE r.status = "dependent" -> [st1 EXCEPT !.branch = "dependent"]
                   [] r.status = "incomplete" -> [st1 EXCEPT !.sel = tmp, !.branch = "incomplete"]
                   [] r.status = "complete" -> [st1 EXCEPT !.sel = tmp, !.w = r.w, !.pc = "done", !.branch = "complete"]
 Iterate(L, rule, st) == IterateV(L, rule, st, "ok")
-RECURSIVE SelectFrom(_, _, _)
-SelectFrom(L, rule, st) == IF st.pc # "loop" THEN st ELSE SelectFrom(L, rule, Iterate(L, rule, st))
-Select(L, rule) == SelectFrom(L, rule, StInit)
 (* the stencil = set of <<mesh vector, weight>> *)
 StencilOf(st) == UNION {{<<n, st.w[s]>> : n \in st.sel[s]} : s \in 1..Len(st.sel)}
 
@@ -182,7 +180,8 @@ StencilOf(st) == UNION {{<<n, st.w[s]>> : n \in st.sel[s]} : s \in 1..Len(st.sel
 (* C22: what is demanded of a stencil S (a set of <<n, w>>), independent of how it was found *)
 Vecs(S) == {p[1] : p \in S}
 Functional(S) == \A p, r \in S : p[1] = r[1] => p[2] = r[2]
-NonZeroInBox(L, S) == \A p \in S : p[1] # VZero /\ p[1] \in Box(L)
+InBox(L, n) == \A i \in I3 : Abs(n[i]) <= L.SS * L.N[i]
+NonZeroInBox(L, S) == \A p \in S : p[1] # VZero /\ InBox(L, p[1])
 NegClosed(S) == \A p \in S : <<VNeg(p[1]), p[2]>> \in S
 (* if one vector of a shell (level set of QF inside the search box) is used, all of them are, with the same weight *)
 WholeShells(L, S) == LET gm == L.gm
